@@ -31,6 +31,10 @@ def run(idx, rep, tier):
     rep.rule("R6", "breadth-first schedule: one track_line and one consideration per un-stopped member per line")
     serial(idx, rep, "R5")
     byline(idx, rep, "R6", "R3", tier)
+    # a breadth-first run begins like a serial one: the run coordination of whatever ran before on this instance (also a run that died) is
+    # reset before the run is named, so its members do not write into — and read back — an earlier run's directory
+    from . import c09 as _c09
+    _c09.prep_protocol(idx, rep, "R6")
     r1(idx, rep)
     r2(idx, rep)
     r4(idx, rep)
